@@ -654,9 +654,12 @@ pub trait DynCore {
     fn as_any(&self) -> &dyn Any;
 }
 
-pub struct CHc128(pub rand_hc::Hc128Core);
-pub struct CIsaac(pub rand_isaac::isaac::IsaacCore);
-pub struct CIsaac64(pub rand_isaac::isaac64::Isaac64Core);
+/// A public block core together with the results buffer its owner keeps handing to `generate()`
+/// (as `BlockRng` does). A clone gets a FRESH default buffer (as `BlockRng::new(core.clone())` would
+/// give it): `generate` must be a function of the core alone, not of what the buffer still holds.
+pub struct CHc128(pub rand_hc::Hc128Core, pub <rand_hc::Hc128Core as BlockRngCore>::Results);
+pub struct CIsaac(pub rand_isaac::isaac::IsaacCore, pub <rand_isaac::isaac::IsaacCore as BlockRngCore>::Results);
+pub struct CIsaac64(pub rand_isaac::isaac64::Isaac64Core, pub <rand_isaac::isaac64::Isaac64Core as BlockRngCore>::Results);
 
 /// BlockRng<Core> built by the harness (not one of the crate's own wrapper types).
 pub struct WrappedCore32<C: BlockRngCore<Item = u32> + Clone + Send + 'static>(pub BlockRng<C>, pub Kind);
@@ -722,12 +725,11 @@ impl DynCore for CHc128 {
         CoreKind::Hc128Core
     }
     fn generate(&mut self) -> Vec<u64> {
-        let mut r = <rand_hc::Hc128Core as BlockRngCore>::Results::default();
-        self.0.generate(&mut r);
-        r.iter().map(|x| *x as u64).collect()
+        self.0.generate(&mut self.1);
+        self.1.iter().map(|x| *x as u64).collect()
     }
     fn boxed_clone(&self) -> Box<dyn DynCore> {
-        Box::new(CHc128(self.0.clone()))
+        Box::new(CHc128(self.0.clone(), Default::default()))
     }
     fn clone_from_dyn(&mut self, src: &dyn DynCore) -> bool {
         match src.as_any().downcast_ref::<CHc128>() {
@@ -760,12 +762,11 @@ impl DynCore for CIsaac {
         CoreKind::IsaacCore
     }
     fn generate(&mut self) -> Vec<u64> {
-        let mut r = <rand_isaac::isaac::IsaacCore as BlockRngCore>::Results::default();
-        self.0.generate(&mut r);
-        r.as_ref().iter().map(|x| *x as u64).collect()
+        self.0.generate(&mut self.1);
+        self.1.as_ref().iter().map(|x| *x as u64).collect()
     }
     fn boxed_clone(&self) -> Box<dyn DynCore> {
-        Box::new(CIsaac(self.0.clone()))
+        Box::new(CIsaac(self.0.clone(), Default::default()))
     }
     fn clone_from_dyn(&mut self, src: &dyn DynCore) -> bool {
         match src.as_any().downcast_ref::<CIsaac>() {
@@ -798,12 +799,11 @@ impl DynCore for CIsaac64 {
         CoreKind::Isaac64Core
     }
     fn generate(&mut self) -> Vec<u64> {
-        let mut r = <rand_isaac::isaac64::Isaac64Core as BlockRngCore>::Results::default();
-        self.0.generate(&mut r);
-        r.as_ref().to_vec()
+        self.0.generate(&mut self.1);
+        self.1.as_ref().to_vec()
     }
     fn boxed_clone(&self) -> Box<dyn DynCore> {
-        Box::new(CIsaac64(self.0.clone()))
+        Box::new(CIsaac64(self.0.clone(), Default::default()))
     }
     fn clone_from_dyn(&mut self, src: &dyn DynCore) -> bool {
         match src.as_any().downcast_ref::<CIsaac64>() {
@@ -869,10 +869,10 @@ fn core_t<T: SeedableRng>(seed: &SeedSpec, wrap: impl Fn(T) -> Box<dyn DynCore>)
 
 pub fn construct_core(kind: CoreKind, seed: &SeedSpec) -> Result<CoreConstructed, SutFail> {
     guard(|| match kind {
-        CoreKind::Hc128Core => core_t::<rand_hc::Hc128Core>(seed, |c| Box::new(CHc128(c))),
-        CoreKind::IsaacCore => core_t::<rand_isaac::isaac::IsaacCore>(seed, |c| Box::new(CIsaac(c))),
+        CoreKind::Hc128Core => core_t::<rand_hc::Hc128Core>(seed, |c| Box::new(CHc128(c, Default::default()))),
+        CoreKind::IsaacCore => core_t::<rand_isaac::isaac::IsaacCore>(seed, |c| Box::new(CIsaac(c, Default::default()))),
         CoreKind::Isaac64Core => {
-            core_t::<rand_isaac::isaac64::Isaac64Core>(seed, |c| Box::new(CIsaac64(c)))
+            core_t::<rand_isaac::isaac64::Isaac64Core>(seed, |c| Box::new(CIsaac64(c, Default::default())))
         }
     })
 }
@@ -889,9 +889,9 @@ pub fn restore_core(kind: CoreKind, fmt: SnapFmt, bytes: &[u8]) -> Result<Box<dy
         match kind {
             CoreKind::Hc128Core => Err("Hc128Core is not serialisable".into()),
             CoreKind::IsaacCore => de::<rand_isaac::isaac::IsaacCore>(fmt, bytes)
-                .map(|c| Box::new(CIsaac(c)) as Box<dyn DynCore>),
+                .map(|c| Box::new(CIsaac(c, Default::default())) as Box<dyn DynCore>),
             CoreKind::Isaac64Core => de::<rand_isaac::isaac64::Isaac64Core>(fmt, bytes)
-                .map(|c| Box::new(CIsaac64(c)) as Box<dyn DynCore>),
+                .map(|c| Box::new(CIsaac64(c, Default::default())) as Box<dyn DynCore>),
         }
     }
     #[cfg(not(feature = "snap"))]
